@@ -189,6 +189,134 @@ theorem IsVec.neg_take1_argsortN {c : Arr ℝ} {O : Arr ℕ} {cg : List ℝ} {σ
       List.getD_eq_getElem ((argsortNat σ).map fun p => -(cg.getD p 0)) 0 (by simpa using hj2), List.getElem_map,
       List.getD_eq_getElem (argsortNat σ) 0 hj2]
 
+/-- `-(cumsum_grad[ranks])` for ANY integer array `ranks` holding `np.argsort(order)` -/
+theorem IsVec.neg_take1_of_isVecN {c : Arr ℝ} {R : Arr ℕ} {cg : List ℝ} {σ : List ℕ} (hc : IsVec c cg)
+    (hR : IsVecN R (argsortNat σ)) (hσ : σ.length = cg.length) :
+    IsVec (neg (take1 c R)) ((argsortNat σ).map fun p => -(cg.getD p 0)) := by
+  obtain ⟨hcok, hcr, hcc, hcget⟩ := hc
+  obtain ⟨hRok, hRr, hRc, hRget⟩ := hR
+  rw [argsortNat_length'] at hRc hRget
+  have hlen : ((argsortNat σ).map fun p => -(cg.getD p 0)).length = σ.length := by simp [argsortNat_length']
+  have hlt : ∀ j, j < σ.length → (argsortNat σ).getD j 0 < cg.length := fun j hj => by
+    rw [← argsortBy_eq_argsortNat, ← hσ]; exact argsortBy_getD_lt _ hj
+  refine ⟨?_, rfl, by rw [hlen]; exact hRc, fun j hj => ?_⟩
+  · rw [neg_ok, take1_ok]
+    simp only [hcok, hRok, hcr, hRr, beq_self_eq_true, Bool.and_true, Bool.true_and, List.all_eq_true, List.mem_range,
+      decide_eq_true_eq]
+    intro j hj
+    rw [hRc] at hj
+    rw [hRget j hj, hcc]
+    exact hlt j hj
+  · rw [hlen] at hj
+    have hj2 : j < (argsortNat σ).length := by rw [argsortNat_length']; exact hj
+    rw [neg_get, take1_get, hRget j hj, hcget _ (hlt j hj),
+      List.getD_eq_getElem ((argsortNat σ).map fun p => -(cg.getD p 0)) 0 (by simpa using hj2), List.getElem_map,
+      List.getD_eq_getElem (argsortNat σ) 0 hj2]
+
+/-! ### undoing a sort by scatter: `g = np.empty_like(v); g[order] = v` -/
+
+/-- `np.argsort` of a permutation `σ` of `0 … m-1` is its inverse: position `j` of `argsort σ` is THE index at which `σ` holds `j` -/
+theorem argsortNat_inv {σ : List ℕ} {m : ℕ} (hσ : σ.Perm (List.range m)) {j : ℕ} (hj : j < m) :
+    (argsortNat σ).getD j 0 < m ∧ σ.getD ((argsortNat σ).getD j 0) 0 = j := by
+  set P := isort (fun p q : ℕ × ℕ => decide (p.1 ≤ q.1)) σ.zipIdx with hP
+  have hperm : P.Perm σ.zipIdx := isort_nat_perm σ
+  have hsorted : (P.map Prod.fst).Pairwise (· ≤ ·) := by
+    rw [List.pairwise_map]; exact isort_nat_sorted σ
+  have hfst : P.map Prod.fst = List.range m := by
+    refine List.Perm.eq_of_pairwise' (r := (· ≤ ·)) hsorted ?_ ?_
+    · exact List.pairwise_le_range
+    · have := hperm.map Prod.fst
+      rw [List.zipIdx_map_fst] at this
+      exact this.trans hσ
+  have hlenP : P.length = m := by
+    have := congrArg List.length hfst
+    simpa using this
+  have hlenσ : σ.length = m := by simpa using hσ.length_eq
+  have hj' : j < P.length := by rw [hlenP]; exact hj
+  have h1 : (P[j]).1 = j := by
+    have := congrArg (fun l => l.getD j 0) hfst
+    simp only [List.getD_eq_getElem?_getD, List.getElem?_map, List.getElem?_eq_getElem hj', List.getElem?_range hj] at this
+    simpa using this
+  have h2 : (argsortNat σ).getD j 0 = (P[j]).2 := by
+    simp only [argsortNat, ← hP, List.getD_eq_getElem?_getD, List.getElem?_map, List.getElem?_eq_getElem hj']
+    simp
+  have hmem : P[j] ∈ σ.zipIdx := hperm.mem_iff.mp (List.getElem_mem hj')
+  have h3 := zipIdx_fst_eq_getD 0 σ hmem
+  have h4 := (List.mem_zipIdx' hmem).1
+  rw [h2]
+  exact ⟨by rw [← hlenσ]; exact h4, by rw [← h3, h1]⟩
+
+/-- the entries of a permutation of `0 … m-1` are pairwise distinct -/
+theorem perm_range_getD_inj {σ : List ℕ} {m : ℕ} (hσ : σ.Perm (List.range m)) {a b : ℕ} (ha : a < m) (hb : b < m)
+    (h : σ.getD a 0 = σ.getD b 0) : a = b := by
+  have hlen : σ.length = m := by simpa using hσ.length_eq
+  have hnd : σ.Nodup := hσ.nodup_iff.mpr List.nodup_range
+  rw [List.getD_eq_getElem _ _ (by rw [hlen]; exact ha), List.getD_eq_getElem _ _ (by rw [hlen]; exact hb)] at h
+  exact (List.Nodup.getElem_inj_iff hnd).mp h
+
+/-- THE SCATTER UNDOES THE SORT.  `g[order] = v` with `order` a permutation of ALL the positions `0 … m-1` of `g` and `len(v) = m`:
+    whatever `g` held before (fresh memory of `np.empty_like`), entry `j` of `g` is afterwards `v[np.argsort(order)[j]]` — every
+    position is written exactly once, nothing of the old content is left -/
+theorem setAt_get_of_perm {β : Type} {g v : Arr β} {O : Arr ℕ} {σ : List ℕ} {m : ℕ} (hO : IsVecN O σ)
+    (hσ : σ.Perm (List.range m)) {j : ℕ} (hj : j < m) :
+    (Arr.setAt g O v).get 0 j = v.get 0 ((argsortNat σ).getD j 0) := by
+  obtain ⟨hOok, hOr, hOc, hOget⟩ := hO
+  have hlen : σ.length = m := by simpa using hσ.length_eq
+  obtain ⟨hk, hσk⟩ := argsortNat_inv hσ hj
+  rw [Arr.setAt_get, hOc, hlen]
+  have hIk : O.get 0 ((argsortNat σ).getD j 0) = j := by rw [hOget _ (by rw [hlen]; exact hk), hσk]
+  have := scatterGet_of_injOn (O.get 0) (v.get 0) (g.get 0 j) m (fun a b ha hb hab => by
+    rw [hOget a (by rw [hlen]; exact ha), hOget b (by rw [hlen]; exact hb)] at hab
+    exact perm_range_getD_inj hσ ha hb hab) _ hk
+  rw [hIk] at this
+  exact this
+
+/-- the error flag of such a scatter: nothing raises -/
+theorem setAt_ok_of_perm {β : Type} {g v : Arr β} {O : Arr ℕ} {σ : List ℕ} {m : ℕ} (hO : IsVecN O σ)
+    (hσ : σ.Perm (List.range m)) (hg : g.ok = true) (hgr : g.r = 1) (hgc : g.c = m) (hv : v.ok = true) (hvr : v.r = 1)
+    (hvc : v.c = m) : (Arr.setAt g O v).ok = true := by
+  obtain ⟨hOok, hOr, hOc, hOget⟩ := hO
+  have hlen : σ.length = m := by simpa using hσ.length_eq
+  rw [Arr.setAt_ok]
+  simp only [hg, hOok, hv, hgr, hOr, hvr, hvc, hOc, hlen, beq_self_eq_true, Bool.and_true, Bool.true_and, List.all_eq_true,
+    List.mem_range, decide_eq_true_eq, hgc]
+  intro k hk
+  rw [hOget k (by rw [hlen]; exact hk)]
+  have hmem : σ.getD k 0 ∈ σ := by
+    rw [List.getD_eq_getElem _ _ (by rw [hlen]; exact hk)]; exact List.getElem_mem _
+  exact List.mem_range.mp (hσ.mem_iff.mp hmem)
+
+/-- `cut_grad = np.empty_like(cumsum_grad); cut_grad[order] = cumsum_grad; -cut_grad` -/
+theorem IsVec.neg_setAt_emptyLike {c : Arr ℝ} {O : Arr ℕ} {cg : List ℝ} {σ : List ℕ} (hc : IsVec c cg)
+    (hO : IsVecN O σ) (hσ : σ.Perm (List.range cg.length)) :
+    IsVec (neg (Arr.setAt (emptyLike c) O c)) ((argsortNat σ).map fun p => -(cg.getD p 0)) := by
+  obtain ⟨hcok, hcr, hcc, hcget⟩ := id hc
+  have hlenσ : σ.length = cg.length := by simpa using hσ.length_eq
+  have hlen : ((argsortNat σ).map fun p => -(cg.getD p 0)).length = cg.length := by simp [argsortNat_length', hlenσ]
+  refine ⟨?_, rfl, by rw [hlen]; simpa using hcc, fun j hj => ?_⟩
+  · rw [neg_ok]
+    exact setAt_ok_of_perm hO hσ (by simpa using hcok) (by simpa using hcr) (by simpa using hcc) hcok hcr hcc
+  · rw [hlen] at hj
+    have hj2 : j < (argsortNat σ).length := by rw [argsortNat_length', hlenσ]; exact hj
+    rw [neg_get, setAt_get_of_perm hO hσ hj, hcget _ (argsortNat_inv hσ hj).1,
+      List.getD_eq_getElem ((argsortNat σ).map fun p => -(cg.getD p 0)) 0 (by simpa using hj2), List.getElem_map,
+      List.getD_eq_getElem (argsortNat σ) 0 hj2]
+
+/-- `ranks = np.empty_like(order); ranks[order] = np.arange(len(order))`: the ranks are `np.argsort(order)` -/
+theorem isVecN_ranks {O : Arr ℕ} {σ : List ℕ} {m : ℕ} (hO : IsVecN O σ) (hσ : σ.Perm (List.range m)) :
+    IsVecN (Arr.setAt (emptyLikeN O) O (arangeN O.c)) (argsortNat σ) := by
+  have hlen : σ.length = m := by simpa using hσ.length_eq
+  have hOc : O.c = m := by rw [hO.2.2.1, hlen]
+  refine ⟨?_, rfl, by rw [argsortNat_length', Arr.setAt_c, emptyLikeN_c, hO.2.2.1], fun j hj => ?_⟩
+  · exact setAt_ok_of_perm hO hσ (by simpa using hO.1) (by simpa using hO.2.1) (by simpa using hOc) rfl rfl
+      (by simpa using hOc)
+  · rw [argsortNat_length', hlen] at hj
+    rw [setAt_get_of_perm hO hσ hj, arangeN_get]
+
+/-- the model's `argsort` is a permutation of the positions -/
+theorem argsort_perm_range (cuts : List ℝ) : (argsort cuts).Perm (List.range cuts.length) := by
+  rw [← argsortBy_eq_argsort]; exact argsortBy_perm _ _
+
 theorem IsMat.checked_true {n k : ℕ} {A : Arr ℝ} {f : Fin n → Fin k → ℝ} (hA : IsMat A f) : IsMat (checked true A) f := by
   obtain ⟨hAok, hAr, hAc, hAget⟩ := hA
   exact ⟨by simp [hAok], hAr, hAc, hAget⟩
@@ -216,6 +344,12 @@ noncomputable def loopBias : Arr ℝ := Arr.drop1 (Arr.sumAxis0 (loopBg1 P Bs T 
 noncomputable def loopCs : Arr ℝ := Arr.neg (Arr.flipCols (Arr.cumsumAxis1 (Arr.flipCols (loopBias P Bs T i))))
 /-- `cut_grad` of round `i` -/
 noncomputable def loopCut : Arr ℝ := Arr.take1 (loopCs P Bs T i) (argsortN (nthN Os i))
+/-- `cut_grad` of round `i`, the sort undone by scatter: `np.empty_like(cumsum_grad)`, then `cut_grad[order] = cumsum_grad` -/
+noncomputable def loopCutS : Arr ℝ := Arr.setAt (Arr.emptyLike (loopCs P Bs T i)) (nthN Os i) (loopCs P Bs T i)
+/-- `ranks` of round `i`: `np.empty_like(order)`, then `ranks[order] = np.arange(len(order))` -/
+noncomputable def loopRanks : Arr ℕ := Arr.setAt (emptyLikeN (nthN Os i)) (nthN Os i) (arangeN (nthN Os i).c)
+/-- `cut_grad` of round `i`, gathered through the ranks: `cumsum_grad[ranks]` -/
+noncomputable def loopCutR : Arr ℝ := Arr.take1 (loopCs P Bs T i) (loopRanks Os i)
 /-- no statement of round `i` raised -/
 noncomputable def loopOk : Bool :=
   (loopWg P i).ok && (loopBg P Bs i).ok && (loopBg1 P Bs T i).ok && (loopBias P Bs T i).ok && (loopCs P Bs T i).ok &&
@@ -233,6 +367,32 @@ theorem feat_eq_getElem (cl : List (ℕ × List ℝ)) {i : ℕ} (hi : i < cl.len
 theorem cutsAt_eq_getElem (cl : List (ℕ × List ℝ)) {i : ℕ} (hi : i < cl.length) : cutsAt cl i = cl[i].2 := by
   simp [cutsAt, List.getD_eq_getElem?_getD, List.getElem?_eq_getElem hi]
 
+/-- the model's `argsort` is a permutation of its own positions -/
+theorem argsort_perm_range_length (cuts : List ℝ) : (argsort cuts).Perm (List.range (argsort cuts).length) := by
+  have h : (argsort cuts).length = cuts.length := by rw [← argsortBy_eq_argsort, argsortBy_length]
+  rw [h]; exact Arr.argsort_perm_range cuts
+
+/-- round `i` of the loop up to `cumsum_grad`: nothing raises and `cumsum_grad` holds the model's list, as long as the
+    retained order -/
+theorem loop_round_cs {n d L : ℕ} (T : ℝ) (X : Fin n → Fin d → ℝ) (cl : List (ℕ × List ℝ)) (bb : Fin n → Fin L → ℝ)
+    {P : ArrN ℝ} (hP : IsArrN P (radices cl) bb) {Bs : List (Arr ℝ)} {i : ℕ} (hi : i < cl.length)
+    (hB : Arr.IsRows (Bs.getD i Arr.err)
+      (fun r : Fin n => binning T (xget (X r) (feat cl i)) (cutsAt cl i)) ((cutsAt cl i).length + 1)) :
+    ((((loopWg P i).ok = true ∧ (loopBg P Bs i).ok = true) ∧ (loopBg1 P Bs T i).ok = true) ∧ (loopBias P Bs T i).ok = true) ∧
+    ∃ cg : List ℝ, Arr.IsVec (loopCs P Bs T i) cg ∧ (argsort cl[i].2).length = cg.length ∧
+      cutGradSpec T X cl bb (cl[i], i) = (argsortNat (argsort cl[i].2)).map fun p => -(cg.getD p 0) := by
+  rw [feat_eq_getElem cl hi, cutsAt_eq_getElem cl hi] at hB
+  have hwg : Arr.IsMat (loopWg P i) (wgM cl bb i cl[i].2.length) :=
+    hP.sumExcept (by simpa [radices] using hi) (radices_getD_zero cl hi)
+  have hbg := Arr.isMat_bin_grad hwg hB.isMat
+  have hbg1 := Arr.isMat_divs_inPlace hbg T
+  have hbias := Arr.isVec_bias_grad hbg1
+  have hcs := hbias.cumsum_grad
+  refine ⟨⟨⟨⟨hwg.1, hbg.1⟩, hbg1.1⟩, hbias.1⟩, _, hcs, ?_, rfl⟩
+  rw [← argsortBy_eq_argsort, argsortBy_length, List.length_map, List.length_reverse, douglas_cumsum_length,
+    List.length_reverse]
+  simp
+
 /-- round `i` of the loop raises nothing and appends the model's `i`-th cut update -/
 theorem loop_round_spec {n d L : ℕ} (T : ℝ) (X : Fin n → Fin d → ℝ) (cl : List (ℕ × List ℝ)) (bb : Fin n → Fin L → ℝ)
     {P : ArrN ℝ} (hP : IsArrN P (radices cl) bb) {Bs : List (Arr ℝ)} {Os : List (Arr ℕ)} {i : ℕ} (hi : i < cl.length)
@@ -240,21 +400,46 @@ theorem loop_round_spec {n d L : ℕ} (T : ℝ) (X : Fin n → Fin d → ℝ) (c
       (fun r : Fin n => binning T (xget (X r) (feat cl i)) (cutsAt cl i)) ((cutsAt cl i).length + 1))
     (hO : IsVecN (Os.getD i errN) (argsort (cutsAt cl i))) :
     loopOk P Bs Os T i = true ∧ Arr.IsVec (Arr.neg (loopCut P Bs Os T i)) (cutGradSpec T X cl bb (cl[i], i)) := by
-  rw [feat_eq_getElem cl hi, cutsAt_eq_getElem cl hi] at hB
+  obtain ⟨⟨⟨⟨h1, h2⟩, h3⟩, h4⟩, cg, hcs, hlen, hspec⟩ := loop_round_cs T X cl bb hP hi hB
   rw [cutsAt_eq_getElem cl hi] at hO
-  have hwg : Arr.IsMat (loopWg P i) (wgM cl bb i cl[i].2.length) :=
-    hP.sumExcept (by simpa [radices] using hi) (radices_getD_zero cl hi)
-  have hbg := Arr.isMat_bin_grad hwg hB.isMat
-  have hbg1 := Arr.isMat_divs_inPlace hbg T
-  have hbias := Arr.isVec_bias_grad hbg1
-  have hcs := hbias.cumsum_grad
-  have hcut := hcs.neg_take1_argsortN hO (by
-    rw [← argsortBy_eq_argsort, argsortBy_length, List.length_map, List.length_reverse, douglas_cumsum_length,
-      List.length_reverse]
-    simp)
+  have hcut := hcs.neg_take1_argsortN hO hlen
+  rw [hspec]
   refine ⟨?_, hcut⟩
   simp only [loopOk, Bool.and_eq_true]
-  exact ⟨⟨⟨⟨⟨hwg.1, hbg.1⟩, hbg1.1⟩, hbias.1⟩, hcs.1⟩, hcut.1⟩
+  exact ⟨⟨⟨⟨⟨h1, h2⟩, h3⟩, h4⟩, hcs.1⟩, hcut.1⟩
+
+/-- the same round with the sort undone by SCATTER (`cut_grad = np.empty_like(cumsum_grad); cut_grad[order] = cumsum_grad`): the
+    retained order is a permutation of all the positions, so every entry of the fresh array is written exactly once — nothing
+    raises, nothing of the uninitialised memory survives, and `-cut_grad` is the model's `i`-th cut update -/
+theorem loop_round_spec_scatter {n d L : ℕ} (T : ℝ) (X : Fin n → Fin d → ℝ) (cl : List (ℕ × List ℝ)) (bb : Fin n → Fin L → ℝ)
+    {P : ArrN ℝ} (hP : IsArrN P (radices cl) bb) {Bs : List (Arr ℝ)} {Os : List (Arr ℕ)} {i : ℕ} (hi : i < cl.length)
+    (hB : Arr.IsRows (Bs.getD i Arr.err)
+      (fun r : Fin n => binning T (xget (X r) (feat cl i)) (cutsAt cl i)) ((cutsAt cl i).length + 1))
+    (hO : IsVecN (Os.getD i errN) (argsort (cutsAt cl i))) :
+    ((Arr.emptyLike (loopCs P Bs T i)).ok = true ∧ (loopCutS P Bs Os T i).ok = true) ∧
+      Arr.IsVec (Arr.neg (loopCutS P Bs Os T i)) (cutGradSpec T X cl bb (cl[i], i)) := by
+  obtain ⟨-, cg, hcs, hlen, hspec⟩ := loop_round_cs T X cl bb hP hi hB
+  rw [cutsAt_eq_getElem cl hi] at hO
+  have hperm : (argsort cl[i].2).Perm (List.range cg.length) := by rw [← hlen]; exact argsort_perm_range_length _
+  have hcut := hcs.neg_setAt_emptyLike hO hperm
+  rw [hspec]
+  exact ⟨⟨by rw [Arr.emptyLike_ok]; exact hcs.1, by have := hcut.1; rwa [Arr.neg_ok] at this⟩, hcut⟩
+
+/-- the same round with the inverse permutation built by scatter (`ranks = np.empty_like(order); ranks[order] = np.arange(len(order));
+    cut_grad = cumsum_grad[ranks]`): `ranks` is `np.argsort(order)`, nothing raises, `-cut_grad` is the model's `i`-th cut update -/
+theorem loop_round_spec_ranks {n d L : ℕ} (T : ℝ) (X : Fin n → Fin d → ℝ) (cl : List (ℕ × List ℝ)) (bb : Fin n → Fin L → ℝ)
+    {P : ArrN ℝ} (hP : IsArrN P (radices cl) bb) {Bs : List (Arr ℝ)} {Os : List (Arr ℕ)} {i : ℕ} (hi : i < cl.length)
+    (hB : Arr.IsRows (Bs.getD i Arr.err)
+      (fun r : Fin n => binning T (xget (X r) (feat cl i)) (cutsAt cl i)) ((cutsAt cl i).length + 1))
+    (hO : IsVecN (Os.getD i errN) (argsort (cutsAt cl i))) :
+    (((emptyLikeN (nthN Os i)).ok = true ∧ (loopRanks Os i).ok = true) ∧ (loopCutR P Bs Os T i).ok = true) ∧
+      Arr.IsVec (Arr.neg (loopCutR P Bs Os T i)) (cutGradSpec T X cl bb (cl[i], i)) := by
+  obtain ⟨-, cg, hcs, hlen, hspec⟩ := loop_round_cs T X cl bb hP hi hB
+  rw [cutsAt_eq_getElem cl hi] at hO
+  have hR : IsVecN (loopRanks Os i) (argsortNat (argsort cl[i].2)) := Arr.isVecN_ranks hO (argsort_perm_range_length _)
+  have hcut := hcs.neg_take1_of_isVecN hR hlen
+  rw [hspec]
+  exact ⟨⟨⟨by rw [emptyLikeN_ok]; exact hO.1, hR.1⟩, by have := hcut.1; rwa [Arr.neg_ok] at this⟩, hcut⟩
 
 /-! ### the fold -/
 
